@@ -1,6 +1,6 @@
 //! C10 - local DID validators on short symbolic strings vs a reference ABNF matcher.
 use crate::sym::{any, assume};
-use identity_did::CoreDID;
+use identity_did::{CoreDID, DID};
 
 fn is_ok<T, E>(r: Result<T, E>) -> bool {
   match r {
@@ -65,8 +65,109 @@ pub fn twin_must_fail() {
 }
 proof!(c10_twin_must_fail, unwind = 6, twin_must_fail);
 
+// ---- the whole parser (third-party did_url_parser + CoreDID::check_validity) on "did:a:" + N symbolic ASCII bytes ----
+
+fn idchar(c: u8) -> bool {
+  c.is_ascii_alphanumeric() || c == b'.' || c == b'-' || c == b'_'
+}
+
+/// reference: W3C DID core 3.1  method-specific-id = *( *idchar ":" ) 1*idchar ; idchar includes pct-encoded
+fn ref_msid(b: &[u8]) -> bool {
+  let n = b.len();
+  if n == 0 {
+    return false;
+  }
+  let mut i = 0;
+  let mut last_colon = false;
+  while i < n {
+    if b[i] == b'%' {
+      if i + 2 >= n || !hex(b[i + 1]) || !hex(b[i + 2]) {
+        return false;
+      }
+      i += 3;
+      last_colon = false;
+    } else if b[i] == b':' {
+      i += 1;
+      last_colon = true;
+    } else if idchar(b[i]) {
+      i += 1;
+      last_colon = false;
+    } else {
+      return false;
+    }
+  }
+  !last_colon
+}
+
+/// the known third-party overrun: a complete escape as the last three bytes of the input
+fn ends_with_escape(b: &[u8]) -> bool {
+  let n = b.len();
+  n >= 3 && b[n - 3] == b'%' && hex(b[n - 2]) && hex(b[n - 1])
+}
+
+fn parse_tail<const N: usize>(known_region: bool) {
+  let t: [u8; N] = any();
+  let mut buf = [0u8; 16];
+  buf[..6].copy_from_slice(b"did:a:");
+  let mut i = 0;
+  while i < N {
+    assume(t[i] < 128 && t[i] > 32 && t[i] != 127); // printable ASCII: leading/trailing blanks are trimmed by the parser (C10 battery covers them)
+    buf[6 + i] = t[i];
+    i += 1;
+  }
+  assume(ends_with_escape(&t) == known_region);
+  let s = core::str::from_utf8(&buf[..6 + N]).unwrap();
+  let want = ref_msid(&t);
+  match CoreDID::parse(s) {
+    Ok(d) => {
+      assert!(want, "accepted a method-specific id outside the W3C ABNF");
+      assert!(d.as_str().len() == 6 + N, "string form differs from the input");
+      let id = d.method_id().as_bytes();
+      assert!(id.len() == N, "method-specific id is not the text after the second colon");
+      sym_cover!(true, "accepted");
+      core::mem::forget(d);
+    }
+    Err(e) => {
+      assert!(!want, "rejected a method-specific id inside the W3C ABNF");
+      sym_cover!(true, "rejected");
+      core::mem::forget(e);
+    }
+  }
+}
+
+pub fn parse_tail_1() {
+  parse_tail::<1>(false)
+}
+pub fn parse_tail_2() {
+  parse_tail::<2>(false)
+}
+pub fn parse_tail_3() {
+  parse_tail::<3>(false)
+}
+pub fn parse_tail_4() {
+  parse_tail::<4>(false)
+}
+pub fn parse_tail_3_escape() {
+  parse_tail::<3>(true)
+}
+pub fn parse_tail_4_escape() {
+  parse_tail::<4>(true)
+}
+proof!(c10_parse_tail_1, unwind = 12, parse_tail_1);
+proof!(c10_parse_tail_2, unwind = 12, parse_tail_2);
+proof!(c10_parse_tail_3, unwind = 12, parse_tail_3);
+proof!(c10_parse_tail_4, unwind = 12, parse_tail_4);
+proof!(c10_parse_tail_3_escape, unwind = 12, parse_tail_3_escape);
+proof!(c10_parse_tail_4_escape, unwind = 12, parse_tail_4_escape);
+
 pub const BODIES: &[(&str, fn())] = &[
   ("c10_method_id_3", method_id_3),
   ("c10_method_name_3", method_name_3),
   ("c10_twin_must_fail", twin_must_fail),
+  ("c10_parse_tail_1", parse_tail_1),
+  ("c10_parse_tail_2", parse_tail_2),
+  ("c10_parse_tail_3", parse_tail_3),
+  ("c10_parse_tail_4", parse_tail_4),
+  ("c10_parse_tail_3_escape", parse_tail_3_escape),
+  ("c10_parse_tail_4_escape", parse_tail_4_escape),
 ];
